@@ -311,6 +311,34 @@ func (e *Exec) intrinsic(fn *ssa.Function, args []Value) (Value, bool) {
 			}
 		}
 		return e.mkError(wrapped), true
+	case "sort.Slice", "sort.SliceStable":
+		// insertion sort calling the real less closure (reflection-based swapper is not interpretable);
+		// the order of equal elements is therefore one of the orders the real sort may produce.
+		sl := args[0].(IfaceV).V.(SliceV)
+		el := func(i int) *Value { return &sl.Arr.V.(*ArrayV).E[sl.Off+i] }
+		idx := func(i int) Value { return IntV{T: e.P.BV(64, uint64(i)), Signed: true} }
+		for i := 1; i < sl.Len; i++ {
+			for j := i; j > 0; j-- {
+				if !e.decide(e.call(args[1], []Value{idx(j), idx(j - 1)}, "sort.Slice less").(BoolV).T) {
+					break
+				}
+				*el(j), *el(j - 1) = *el(j - 1), *el(j)
+			}
+		}
+		return nil, true
+	case "slices.SortFunc", "slices.SortStableFunc":
+		sl := args[0].(SliceV)
+		el := func(i int) *Value { return &sl.Arr.V.(*ArrayV).E[sl.Off+i] }
+		for i := 1; i < sl.Len; i++ {
+			for j := i; j > 0; j-- {
+				c := e.call(args[1], []Value{copyValue(*el(j)), copyValue(*el(j - 1))}, "slices.SortFunc cmp").(IntV)
+				if !e.decide(e.P.Cmp("bvslt", c.T, e.P.BV(c.T.W, 0))) {
+					break
+				}
+				*el(j), *el(j - 1) = *el(j - 1), *el(j)
+			}
+		}
+		return nil, true
 	case "errors.As":
 		return BoolV{e.P.Bool(e.errorsAs(args[0].(IfaceV), args[1].(IfaceV)))}, true
 	case "errors.Is":
